@@ -19,6 +19,17 @@ def _elts(c3, with_dict=False):
     return None
 
 
+MIRROR = {"<": ">", ">": "<", "<=": ">=", ">=": "<=", "==": "==", "!=": "!="}
+
+
+def oriented(c: Term) -> Term:
+    """one orientation for comparisons: the length / the variable on the left (N <= len(b) is len(b) >= N, 0 < x is x > 0)"""
+    l_, r_ = strip(c[2]), strip(c[3])
+    if c[1] in MIRROR and ((call_is(r_, "len") and not call_is(l_, "len")) or (is_const(l_) and not is_const(r_) and not call_is(r_, "len"))):
+        return ("cmp", MIRROR[c[1]], c[3], c[2])
+    return c
+
+
 def atoms(pc) -> List[Term]:
     """Definite positive atoms implied by a path condition (conjunction of (term, truth) pairs).
 
@@ -50,7 +61,7 @@ def atoms(pc) -> List[Term]:
             else:
                 out.append(c if truth else ("cmp", NEG[c[1]], c[2], c[3]))
         elif k == "cmp":
-            out.append(c if truth else ("cmp", NEG[c[1]], c[2], c[3]))
+            out.append(oriented(c if truth else ("cmp", NEG[c[1]], c[2], c[3])))
         elif k == "call" and c[1] == ("ext", "bool") and len(c[2]) == 1:
             add(c[2][0], truth)
         else:
@@ -432,7 +443,7 @@ def alternatives(c: Term, truth: bool) -> List[List[Term]]:
             return [[("cmp", "==", c[2], y)] for y in elts]
         return [[("cmp", "!=", c[2], y) for y in elts]]
     if c[0] == "cmp":
-        return [[c if truth else ("cmp", NEG[c[1]], c[2], c[3])]]
+        return [[oriented(c if truth else ("cmp", NEG[c[1]], c[2], c[3]))]]
     if c[0] == "ite" and is_const(c[2]) and is_const(c[3]) and isinstance(c[2][1], bool) and isinstance(c[3][1], bool):
         # a gated boolean constant (boolean result of an inlined helper)
         if c[2][1] == c[3][1]:
@@ -515,3 +526,119 @@ def cut_normalise(t: Term, data: Term, facts) -> Term:
                     return cut if (lo is None and hi is None) else ("slice", cut, lo, hi, None)
         return x
     return rw(t)
+
+
+def block_of(x: Term, prog=None, depth: int = 0):
+    """B when x is certainly a positive multiple of B bytes long: PKCS7 `pad(_, B)` adds 1..B bytes, a block cipher keeps the length
+    (trusted behaviour of pycryptodome, as everywhere else)"""
+    x = strip(x)
+    if meth_is(x, "encrypt", "decrypt") and call_is(strip(x[1][1]), "Crypto.Cipher.AES.new") and x[2]:
+        return block_of(x[2][0], prog, depth)
+    if call_is(x, "Crypto.Util.Padding.pad") and len(x[2]) > 1 and is_const(x[2][1]) and isinstance(x[2][1][1], int) and x[2][1][1] > 0 \
+            and dict(x[3]).get("style", x[2][2] if len(x[2]) > 2 else ("const", "pkcs7")) == ("const", "pkcs7"):
+        return x[2][1][1]
+    if call_is(x, "bytes", "bytearray", "memoryview") and len(x[2]) == 1 and not x[3]:
+        return block_of(x[2][0], prog, depth)
+    if x[0] == "call" and x[1][0] == "func" and prog is not None and x[1][1] in prog.funcs and depth < 3:
+        from .terms import summarize
+        try:
+            rs = [t_ for _pc, t_, n_, _ in summarize(prog, prog.funcs[x[1][1]]).returns if n_ is not None]
+        except Exception:
+            return None
+        bs = {block_of(t_, prog, depth + 1) for t_ in rs}
+        return bs.pop() if len(bs) == 1 else None
+    return None
+
+
+def provable(c: Term, pc, leaf=None, prog=None, depth: int = 0) -> bool:
+    """c certainly holds on a path with condition pc: by the facts of the path, by integer intervals of its operands (bytes are 0..255,
+    `x & M` is 0..M, unsigned int.from_bytes of n bytes is 0..256**n-1, lengths of constant slices of buffers whose length the path fixes),
+    or - for class tests - because every alternative of the tested value is a subclass.  False means "not shown", not "false"."""
+    from .intervals import iv_of
+    c = strip(c)
+    if depth > 6 or not isinstance(c, tuple) or not c:
+        return False
+    if is_const(c):
+        return bool(c[1])
+    if c[0] == "bool":
+        return all(provable(x, pc, leaf, prog, depth + 1) for x in c[2]) if c[1] == "and" else any(provable(x, pc, leaf, prog, depth + 1) for x in c[2])
+    if c[0] == "un" and c[1] == "not":
+        x = strip(c[2])
+        if x[0] == "cmp" and x[1] in NEG:
+            return provable(("cmp", NEG[x[1]], x[2], x[3]), pc, leaf, prog, depth + 1)
+        if x[0] == "bool":
+            return provable(("bool", "or" if x[1] == "and" else "and", tuple(("un", "not", y) for y in x[2])), pc, leaf, prog, depth + 1)
+        if x[0] == "un" and x[1] == "not":
+            return provable(x[2], pc, leaf, prog, depth + 1)
+        return False
+    facts = atoms(pc)
+    if c in facts:
+        return True
+    if c[0] == "call" and c[1] in (("ext", "issubclass"), ("ext", "isinstance")) and len(c[2]) == 2 and prog is not None:
+        want = strip(c[2][1])
+        wants = [strip(w) for w in want[1]] if want[0] == "tuple" else [want]
+        if not all(w[0] == "global" and w[1] in prog.classes for w in wants):
+            return False
+
+        def leaves(x):
+            x = strip(x)
+            return leaves(x[2]) + leaves(x[3]) if x[0] == "ite" else [x]
+        ls = leaves(c[2][0])
+        if c[1][1] == "issubclass":
+            return all(x[0] == "global" and x[1] in prog.classes and any(w[1] in {k.qual for k in prog.mro(prog.classes[x[1]])} for w in wants) for x in ls)
+        return False
+    if c[0] != "cmp" or c[1] not in ("<", "<=", ">", ">=", "==", "!="):
+        return False
+
+    def length_of(x):
+        """(lo, hi) for len(x) from the facts of the path"""
+        x = strip(x)
+        lo, hi = 0, None
+        for f in facts:
+            if f[0] == "cmp" and call_is(strip(f[2]), "len") and strip(strip(f[2])[2][0]) == x and is_const(f[3]) and isinstance(f[3][1], int):
+                k = f[3][1]
+                if f[1] == "==":
+                    lo, hi = max(lo, k), k if hi is None else min(hi, k)
+                elif f[1] == ">=":
+                    lo = max(lo, k)
+                elif f[1] == ">":
+                    lo = max(lo, k + 1)
+                elif f[1] == "<=":
+                    hi = k if hi is None else min(hi, k)
+                elif f[1] == "<":
+                    hi = k - 1 if hi is None else min(hi, k - 1)
+        if x[0] == "slice" and x[4] is None and all(b is None or (is_const(b) and isinstance(b[1], int)) for b in (x[2], x[3])):
+            blo, bhi = length_of(x[1])
+            a_, b_ = (None if x[2] is None else x[2][1]), (None if x[3] is None else x[3][1])
+            ends = [len(range(n_)[a_:b_]) for n_ in ([blo] + ([bhi] if bhi is not None else []))]
+            if bhi is None:
+                # unbounded base: the slice length is monotone in the base length; bounded above only when the slice has a fixed width
+                top = len(range(10 ** 6)[a_:b_])
+                return min(ends), (top if top < 10 ** 5 else None)
+            return min(ends), max(ends)
+        return lo, hi
+
+    def lf(t):
+        if t[0] == "bin" and t[1] in ("%", "&") and call_is(strip(t[2]), "len") and len(strip(t[2])[2]) == 1 and is_const(t[3]) and isinstance(t[3][1], int) and t[3][1] > 0:
+            b = block_of(strip(t[2])[2][0], prog)
+            k = t[3][1] if t[1] == "%" else t[3][1] + 1          # (x % 2**n is normalised to x & (2**n - 1))
+            if b is not None and b % k == 0 and (t[1] == "%" or k & (k - 1) == 0):
+                return (0, 0)
+        if call_is(t, "len") and len(t[2]) == 1:
+            lo, hi = length_of(t[2][0])
+            b = block_of(t[2][0], prog)
+            if b is not None:
+                lo = max(lo, b)
+            return (lo, hi if hi is not None else 10 ** 12)
+        if call_is(t, "int.from_bytes") and t[2] and dict(t[3]).get("signed", ("const", False)) == ("const", False):
+            lo, hi = length_of(t[2][0])
+            if hi is not None and hi <= 8:
+                return (0, 256 ** hi - 1)
+            return (0, 10 ** 30)
+        return leaf(t) if leaf is not None else None
+    ia, ib = iv_of(c[2], lf), iv_of(c[3], lf)
+    if ia is None or ib is None:
+        return False
+    op = c[1]
+    return {"<": ia[1] < ib[0], "<=": ia[1] <= ib[0], ">": ia[0] > ib[1], ">=": ia[0] >= ib[1],
+            "==": ia[0] == ia[1] == ib[0] == ib[1], "!=": ia[1] < ib[0] or ib[1] < ia[0]}[op]
